@@ -54,6 +54,7 @@ def jobs(tier, seed):
     # but fanin() sets are iterated)
     js.append({"sub": "shape", "chunk": 0, "of": nchunks, "n": n, "bb": False, "consts": b["const_kinds"],
                "hashseed": 1 + seed % 1000, "primary": False})
+    js.append({"sub": "deep", "lengths": [5, 300, 1200, 3000] if tier == "quick" else [5, 300, 1200, 3000, 8000]})
     return js
 
 
@@ -222,6 +223,31 @@ def run_shape(job, acc):
             break
 
 
+def deep_desc(L, from_input):
+    """A live gate next to a dead chain of L inverters (hanging off input a, or off a constant)."""
+    nodes = [["a", "input", [], False], ["b", "input", [], False], ["g", "and", ["a", "b"], True]]
+    prev = "a"
+    if not from_input:
+        nodes.append(["k", "1", [], False])
+        prev = "k"
+    for i in range(L):
+        nodes.append([f"d{i}", "not", [prev], False])
+        prev = f"d{i}"
+    return {"name": "deep", "nodes": nodes}
+
+
+def run_deep(job, acc):
+    for L in job["lengths"]:
+        for from_input in (True, False):
+            for flag in (False, True):
+                desc = deep_desc(L, from_input)
+                case = {"kind": "shape", "desc": {"deep": [L, from_input]}, "inputs": flag, "order": None}
+                acc.states += 1
+                acc.nontrivial += 1
+                check_call(acc, space.build(desc), flag, "deep", case)
+    acc.sample({"lengths": job["lengths"]})
+
+
 # --- history -----------------------------------------------------------------
 
 
@@ -292,6 +318,8 @@ def run(job):
     acc = Acc(job)
     if job["sub"].startswith("shape"):
         run_shape(job, acc)
+    elif job["sub"] == "deep":
+        run_deep(job, acc)
     else:
         run_history(job, acc)
     return acc.result()
@@ -301,7 +329,8 @@ def replay(case, job):
     common.setup_paths()
     acc = Acc(job)
     if case["kind"] == "shape":
-        c = space.build(case["desc"], order=case.get("order"))
+        d = deep_desc(*case["desc"]["deep"]) if "deep" in case["desc"] else case["desc"]
+        c = space.build(d, order=case.get("order"))
         check_call(acc, c, case["inputs"], "shape", case)
     else:
         c = space.build(case["seed"])
